@@ -361,9 +361,11 @@ def _seeded():
         if not (meta.exists() and patch.exists()):
             continue
         m = json.loads(meta.read_text())
+        if m.get("selftest") == "excluded":
+            continue  # a recorded miss (see meta.json / DESIGN.md): kept for the record, not part of the kill count
         edits = _hunks(patch.read_text())
         if edits:
-            CORPUS.append(dict(id=f"seeded-{d.name}", prop=m["property"], kind="M", edits=edits, expect=m.get("expect")))
+            CORPUS.append(dict(id=f"seeded-{d.name}", prop=m.get("selftest_property", m["property"]), kind="M", edits=edits, expect=m.get("expect")))
 
 
 _seeded()
@@ -385,3 +387,13 @@ M("c08-asy-missing-mass", "C08", CFD + "asy/kernels.py", "    m2hq = esf.info.m2
 M("c09-missing-mass", "C09", CFD + "heavy/kernels.py", "    m2hq = esf.info.m2hq[ihq - 4]\n    return (kernels.Kernel(weights[\"ns\"], pcs.NonSinglet(esf, nf, m2hq=m2hq)),)",
   "    m2hq = esf.info.m2hq[nf - 3]\n    return (kernels.Kernel(weights[\"ns\"], pcs.NonSinglet(esf, nf, m2hq=m2hq)),)", expect="C09.mass")
 M("c10-shared-shift", "C10", "esf/tmc.py", '        self._shifted_kinematics = {"x": self.xi, "Q2": self.Q2}', '        self._shifted_kinematics = kinematics\n        self._shifted_kinematics["x"] = self.xi', expect="C10.shared")
+
+
+# ----------------------------------------------------------------------------- process-state rule (memo keys), twins
+B("state-complete-instance-memo", "C02", CFD + "coupling_constants.py", "    def get_weight(self, pid, Q2, quark_coupling_type, cc_mask=None):",
+  "    def get_weight_cached(self, pid, Q2, quark_coupling_type, cc_mask=None):\n        key = (pid, Q2, quark_coupling_type, cc_mask)\n        if not hasattr(self, \"_memo\"):\n            self._memo = {}\n        if key not in self._memo:\n            self._memo[key] = self.get_weight(pid, Q2, quark_coupling_type, cc_mask)\n        return self._memo[key]\n\n    def get_weight(self, pid, Q2, quark_coupling_type, cc_mask=None):")
+M("state-class-level-operators", "C14", "esf/scale_variations.py", "        self.operators = {}\n", "        pass\n", expect="C14.state",
+  more=[("esf/scale_variations.py", "class ScaleVariations:\n", "class ScaleVariations:\n    operators = {}\n")])
+B("state-module-memo-complete", "C14", CFD + "heavy/n3lo/__init__.py", "    grid_name = f\"{coeff}_nf{int(nf)}_var{int(variation)}.npy\"", "    grid_name = \"%s_nf%d_var%d.npy\" % (coeff, int(nf), int(variation))")
+M("state-module-memo-stale", "C14", CFD + "heavy/n3lo/__init__.py", "    if grid_name in interpolators:\n        return interpolators[grid_name]", "    key = f\"{coeff}_nf{int(nf)}\"\n    if key in interpolators:\n        return interpolators[key]", expect="C14.state",
+  more=[(CFD + "heavy/n3lo/__init__.py", "    interpolators[grid_name] = grid_interpolator", "    interpolators[key] = grid_interpolator")])
